@@ -7,6 +7,7 @@ import (
 	"regexp/syntax"
 	"sort"
 	"strings"
+	"unicode"
 
 	"golang.org/x/tools/go/ssa"
 
@@ -439,16 +440,29 @@ func (c *Ctx) evalBoolFn(fn *ssa.Function, k int64, other bool) (result bool, ok
 	param := fn.Params[0]
 	bools := map[ssa.Value]bool{}
 	undecidable := false
+	// the letter itself, or the letter after unicode.ToLower / ToUpper
+	derived := map[ssa.Value]int64{ssa.Value(param): k}
+	allInstrs(fn, func(in ssa.Instruction) {
+		if call, ok := in.(*ssa.Call); ok && len(call.Call.Args) == 1 && call.Call.Args[0] == ssa.Value(param) {
+			f := staticCallee(&call.Call)
+			switch {
+			case isFn(f, "unicode", "ToLower"):
+				derived[call] = int64(unicode.ToLower(rune(k)))
+			case isFn(f, "unicode", "ToUpper"):
+				derived[call] = int64(unicode.ToUpper(rune(k)))
+			}
+		}
+	})
 	allInstrs(fn, func(in ssa.Instruction) {
 		switch x := in.(type) {
 		case *ssa.BinOp:
 			var cv ssa.Value
-			switch {
-			case x.X == ssa.Value(param):
-				cv = x.Y
-			case x.Y == ssa.Value(param):
-				cv = x.X
-			default:
+			kk := k
+			if dv, ok := derived[x.X]; ok {
+				cv, kk = x.Y, dv
+			} else if dv, ok := derived[x.Y]; ok {
+				cv, kk = x.X, dv
+			} else {
 				return
 			}
 			n, isC := constInt(cv)
@@ -458,9 +472,9 @@ func (c *Ctx) evalBoolFn(fn *ssa.Function, k int64, other bool) (result bool, ok
 			}
 			switch x.Op {
 			case token.EQL:
-				bools[x] = !other && n == k
+				bools[x] = !other && n == kk
 			case token.NEQ:
-				bools[x] = other || n != k
+				bools[x] = other || n != kk
 			default:
 				undecidable = true
 			}
@@ -473,6 +487,9 @@ func (c *Ctx) evalBoolFn(fn *ssa.Function, k int64, other bool) (result bool, ok
 				}
 			}
 			if isLogCall(x) {
+				return
+			}
+			if _, isDerived := derived[x]; isDerived {
 				return
 			}
 			undecidable = true
@@ -555,7 +572,7 @@ func (c *Ctx) RuleFlagSet() *Result {
 				return
 			}
 			// candidate constants
-			cands := map[int64]bool{'i': true, 's': true, 'm': true, 'U': true, 'x': true, 'g': true}
+			cands := map[int64]bool{'i': true, 's': true, 'm': true, 'U': true, 'x': true, 'g': true, 'I': true, 'S': true, 'M': true, 'u': true}
 			allInstrs(pred, func(in ssa.Instruction) {
 				if b, ok := in.(*ssa.BinOp); ok {
 					if n, ok := constInt(b.Y); ok {
@@ -768,6 +785,44 @@ func (c *Ctx) RuleSanitize() *Result {
 		if printAfter {
 			problems = append(problems, "the regex is printed again after the flag groups were removed: the printer re-inserts them")
 		}
+		// a printing pass hands back what the printer printed, on every path
+		for _, st := range steps {
+			if !strings.Contains(st.kind, "print") {
+				continue
+			}
+			if why := c.printerReturnsPrinted(staticFn(&st.call.Call), 0); why != "" {
+				problems = append(problems, why)
+			}
+		}
+		if why := c.printerReturnsPrinted(staticFn(&chainStart.Call), 0); why != "" {
+			problems = append(problems, why)
+		}
+		// the chain is skipped only when the text it would clean is empty
+		{
+			S := chainStart.Block()
+			reachS := blocksReaching(S)
+			var input []ssa.Value
+			for _, a := range chainStart.Call.Args {
+				if a.Type().Underlying().String() == "string" {
+					input = append(input, a)
+				}
+			}
+			for d := S.Idom(); d != nil; d = d.Idom() {
+				iff, ok := d.Instrs[len(d.Instrs)-1].(*ssa.If)
+				if !ok || len(d.Succs) != 2 {
+					continue
+				}
+				for _, o := range d.Succs {
+					if reachS[o] || o == S || !c.reachesNormalReturn(o) {
+						continue
+					}
+					cond, _ := unwrapNot(iff.Cond)
+					if !isLenTestOfArg(cond, input) {
+						problems = append(problems, fmt.Sprintf("the clean-up passes are skipped under a condition (%s) that is not 'the text to clean is empty': text that reaches the output on that path (prefix and suffix lines around an empty body) is neither escaped nor stripped of flag groups", c.P.InstrPos(iff)))
+					}
+				}
+			}
+		}
 		// the value after the last pass must be what is returned (possibly with the flag prefix)
 		if !flowsToReturn(cur, 0) {
 			problems = append(problems, "the result of the last pass is not what the function returns")
@@ -779,6 +834,45 @@ func (c *Ctx) RuleSanitize() *Result {
 		}
 	}
 	return res
+}
+
+// printerReturnsPrinted: every value the printing pass returns comes out of the printer
+// (rassemble.Join) or out of another printing pass; it never hands back its input.
+func (c *Ctx) printerReturnsPrinted(fn *ssa.Function, depth int) string {
+	if fn == nil || len(fn.Blocks) == 0 || depth > 2 {
+		return ""
+	}
+	why := ""
+	allInstrs(fn, func(in ssa.Instruction) {
+		r, ok := in.(*ssa.Return)
+		if !ok || len(r.Results) == 0 || why != "" {
+			return
+		}
+		var walk func(v ssa.Value, d int)
+		walk = func(v ssa.Value, d int) {
+			if d > 4 || why != "" {
+				return
+			}
+			switch x := stripConv(v).(type) {
+			case *ssa.Phi:
+				for _, e := range x.Edges {
+					walk(e, d+1)
+				}
+			case *ssa.Parameter:
+				if x.Type().Underlying().String() == "string" {
+					why = fmt.Sprintf("%s can return its input as it came in (%s): on that path the regex is not re-printed by the engine, and the passes that follow rely on the printed form (no \\s outside the engine's spelling, flags as groups)", load.FnName(fn), c.P.InstrPos(r))
+				}
+			case *ssa.Call:
+				if sf := staticFn(&x.Call); sf != nil && c.P.IsRepoFn(sf) && sf != fn {
+					if w := c.printerReturnsPrinted(sf, depth+1); w != "" {
+						why = w
+					}
+				}
+			}
+		}
+		walk(r.Results[0], 0)
+	})
+	return why
 }
 
 func passName(k string) string {
